@@ -164,10 +164,14 @@ Section Proofs.
   Proof.
     intros [s ts] t c' o [Hp Ht Hu] Hstep Ho. unfold lstep, tstep in Hstep; simpl in *.
     destruct (nth_error ts t) as [[l [|a rest]]|] eqn:Hn; try discriminate.
-    destruct a; unfold lexec in Hstep;
-      repeat match type of Hstep with
+    destruct (lexec V pure s l a) as [[s' l']|] eqn:He; [|discriminate].
+    inversion Hstep; subst c'; simpl.
+    pose proof (Ht t _ Hn) as Hst.
+    destruct (stage_shapes _ _ _ _ Hst) as [[-> ->]|[[-> ->]|[[-> ->]|[[-> ->]|[-> ->]]]]];
+      unfold lexec in He;
+      repeat match type of He with
              | context [match ?x with _ => _ end] => destruct x eqn:?
-             end; inversion Hstep; subst; simpl; try assumption; try congruence.
+             end; inversion He; subst; simpl; try assumption; try congruence.
   Qed.
 
   (** ** plain Store of an equal value (schema.go cacheMap.load) *)
